@@ -173,13 +173,13 @@ Definition iso_enrich (fixd : bool) (q : iquery) (caller : irow) : option (bool 
 
 (* ---------- analytic functions (lag, one global partition) ----------
    state: the last recorded argument value of every call.  Observed behaviour of the engine (the
-   subject of C14, followed here): a NULL argument is not recorded (the state is kept), an argument
-   column that is missing in the row is recorded as the column's own name. *)
+   subject of C14, followed here): a NULL argument is not recorded (the state is kept); an argument
+   column that is missing in the row evaluates to NULL as well (since the repair recorded as F27). *)
 Definition istate := list ival.
 Definition iso_arg (w : irow) (f : bytes) (old : ival) : ival :=
   match iso_lookup f w with
   | Some INull => old
-  | None => IStr f
+  | None => old
   | Some v => v
   end.
 Definition iso_st0 (q : iquery) : istate := map (fun _ => INull) (iso_calls q).
